@@ -20,14 +20,16 @@ type Clause struct {
 	Text  string
 	Expr  ast.Expr
 	Src   string // file:line
+	// AtCreation: a `captured-requires` clause of a closure (checked where the closure is created)
+	AtCreation bool
 }
 
 type LoopSpec struct {
 	IterEnsures []Clause // checked at the back edge over the events of one iteration
-	Invariants []Clause
-	Modifies   []string
-	HasMod     bool
-	Entry      []Clause
+	Invariants  []Clause
+	Modifies    []string
+	HasMod      bool
+	Entry       []Clause
 }
 
 type FuncContract struct {
@@ -58,7 +60,7 @@ type FuncContract struct {
 	Opaque       map[string]bool // callee names to treat as opaque events instead of inlining
 	Havocs       map[string][]string
 	Folds        map[string][]Clause // callee name -> invariants over the state its callback argument updates
-	Observes     []Clause // Label = name
+	Observes     []Clause            // Label = name
 	ReplayAssume []Clause
 	Replay       string
 }
@@ -451,12 +453,18 @@ func (db *ContractDB) parseFile(path, pkgPath string, trusted bool) error {
 			switch word {
 			case "prop":
 				cur.Props = append(cur.Props, strings.Fields(strings.ReplaceAll(rest, ",", " "))...)
-			case "requires", "ensures", "panic-ensures", "assume":
+			case "requires", "ensures", "panic-ensures", "assume", "captured-requires":
 				c, err := mkClause(word)
 				if err != nil {
 					return err
 				}
 				switch word {
+				case "captured-requires":
+					// a fact about the variables a closure captures, as they are when the closure is created (and not
+					// changed afterwards): assumed in the closure, an obligation of the function that creates it
+					c.Kind = "requires"
+					c.AtCreation = true
+					cur.Requires = append(cur.Requires, c)
 				case "requires":
 					cur.Requires = append(cur.Requires, c)
 				case "ensures":
